@@ -273,10 +273,6 @@ func buildEntries() []Entry {
 		add(fmt.Sprintf("keycredential.CustomKeyInformation.FromBytes.v%x", ver), [][]byte{{1, 0}, {1, 0, 0, 0, 0, 0, 0, 0, 0, 0, 0, 0}, {1, 2, 0, 1, 0, 0, 1, 2, 3, 4, 5, 6, 7}}, func(in []byte) {
 			(&key.CustomKeyInformation{}).FromBytes(in, key.KeyCredentialVersion{Value: ver})
 		})
-		add(fmt.Sprintf("keycredential.ConvertFromBinaryTime.v%x", ver), [][]byte{{1, 2, 3, 4, 5, 6, 7, 1}}, func(in []byte) {
-			kutils.ConvertFromBinaryTime(in, key.KeySource_AD, key.KeyCredentialVersion{Value: ver})
-			kutils.ConvertFromBinaryTime(in, key.KeySource_AzureAD, key.KeyCredentialVersion{Value: ver})
-		})
 		es = append(es, Entry{Name: fmt.Sprintf("keycredential.ConvertToBinaryIdentifier.v%x", ver), Text: true, Small: true, Seeds: strs("AQIDBA==", "01020304", "zz"), Call: func(in []byte) {
 			kutils.ConvertToBinaryIdentifier(string(in), key.KeyCredentialVersion{Value: ver})
 		}})
